@@ -630,7 +630,13 @@ fn mutate(rng: &mut Rng, d: &Desc) -> (String, Vec<u8>) {
     let mut p = 8;
     while p + 8 <= png.len() {
         let l = u32::from_be_bytes([png[p], png[p + 1], png[p + 2], png[p + 3]]) as usize;
+        if p + 12 + l > png.len() {
+            break;
+        }
         offs.push((p, l, [png[p + 4], png[p + 5], png[p + 6], png[p + 7]]));
+        if &png[p + 4..p + 8] == b"IEND" {
+            break;
+        }
         p += 12 + l;
     }
     let ihdr = 16; // offset of IHDR data
